@@ -120,6 +120,10 @@ func v15RulingIs(st *vState, l *vLeaf, tv *sdcpb.TypedValue) bool {
 	return r
 }
 
+// v15FaultMode: a transient collaborator failure is injected into the cycle (completeness of
+// the report is then not demanded, its soundness is)
+var v15FaultMode bool
+
 type v15Counts struct {
 	unhandled  map[string]int            // leaf id
 	notApplied map[string]map[string]int // leaf id -> owner
@@ -161,6 +165,11 @@ func v15AssertCycle(st *vState, msgs []*sdcpb.WatchDeviationResponse) {
 			}
 		}
 		if l == nil {
+			if v15FaultMode && m.GetPath() == nil && m.GetReason() == sdcpb.DeviationReason_UNHANDLED {
+				// (situation: the path conversion failed and the message went out without a path)
+				verifrt.Assert(false, "C15-reported-path-exists/unhandled-sent-without-path-after-conversion-failure")
+				continue
+			}
 			verifrt.Assert(false, "C15-reported-path-exists")
 			continue
 		}
@@ -211,6 +220,16 @@ func v15AssertCycle(st *vState, msgs []*sdcpb.WatchDeviationResponse) {
 	// every deviation is reported, once
 	for _, l := range sc.leaves {
 		verifrt.Assert(c.unhandled[l.id] <= 1, "C15-reported-once")
+		if v15FaultMode {
+			// a collaborator failed once during the cycle: the code skips the path it was
+			// working on, so a deviation may go unreported in THIS cycle; what must still hold
+			// is that nothing is reported that does not deviate (checked above) and nothing twice
+			for _, o := range sc.owners {
+				verifrt.Assert(c.notApplied[l.id][o] <= 1, "C15-reported-once")
+				verifrt.Assert(c.overruled[l.id][o] <= 1, "C15-reported-once")
+			}
+			continue
+		}
 		if st.rpres[l.id] && !v15Defined(st, l) {
 			verifrt.Assert(c.unhandled[l.id] == 1, "C15-every-deviation-reported/unhandled")
 		}
@@ -276,6 +295,13 @@ func VerifDeviations() {
 	// param "ideal" = 1: the cache answers the all-intents read with the entries of all intents
 	// (the contract runDeviationUpdate is written against); 0: sdcio/cache v0.0.35 as observed
 	env.model.IdealReads = verifrt.Param("ideal", 0) == 1
+	v15FaultMode = false
+	if verifrt.Param("fault", 0) == 1 {
+		// the k-th schema request of the cycle fails once (transient: the schema client does
+		// not cache errors)
+		v15FaultMode = true
+		env.schema.FailAt = env.schema.Calls + 1 + verifrt.Choice("fault.schemaCall", verifrt.Param("maxSchemaCalls", 6))
+	}
 	n := verifrt.Param("clients", 1)
 	dm := map[string]sdcpb.DataServer_WatchDeviationsServer{}
 	var streams []*v15Stream
